@@ -288,3 +288,134 @@ class TypedGen:
         if ty == "L":
             return ["list", [self.gen(r.choice("NBSL"), d - 1) for _ in range(r.randint(0, 3))]]
         return self.leaf(ty)
+
+
+# ------------------------------------------------------------------------------------------------
+# programs with observable (logging) handlers: C07, C14, C15
+
+ORDER_PRE = [
+    {"op": "reg_fn", "name": "gt", "beh": {"id": 1000, "log": True, "ret": "last"}},
+    {"op": "reg_infix", "name": "lop", "prec": 115, "type": "CALC", "assoc": "LEFT", "beh": {"id": 1001, "log": True, "ret": "last"}},
+    {"op": "reg_infix", "name": "rop", "prec": 35, "type": "CALC", "assoc": "RIGHT", "beh": {"id": 1002, "log": True, "ret": "last"}},
+    {"op": "reg_infix", "name": "sop", "prec": 20, "type": "SETTER", "assoc": "RIGHT", "beh": {"id": 1003, "log": True, "ret": "last"}},
+    {"op": "reg_prefix", "name": "pre", "beh": {"id": 1004, "log": True, "ret": "last"}},
+    {"op": "reg_postfix", "name": "pst", "beh": {"id": 1005, "log": True, "ret": "last"}},
+]
+ORDER_FNS = {
+    "t": {"id": 1, "log": True, "ret": "last"},
+    "r1": {"id": 11, "log": True, "ret": "const", "v": ["n", "7", 0]},
+    "r2": {"id": 12, "log": True, "ret": "const", "v": ["b", True]},
+    "r3": {"id": 13, "log": True, "ret": "const", "v": ["n", "25", 1]},
+}
+ORDER_VARS = {"a": ["n", "2", 0], "b": ["n", "35", 1]}
+
+
+def order_table():
+    t = ref.OpTable()
+    t.infix["lop"] = (115, "LEFT", "CALC")
+    t.infix["rop"] = (35, "RIGHT", "CALC")
+    t.infix["sop"] = (20, "RIGHT", "SETTER")
+    t.prefix.add("pre")
+    t.postfix.add("pst")
+    return t
+
+
+def order_model():
+    B = ref.Beh
+    return dict(
+        table=order_table(),
+        gfuncs={"gt": B(1000, True, "last")},
+        handlers={("infix", "lop"): B(1001, True, "last"), ("infix", "rop"): B(1002, True, "last"), ("infix", "sop"): B(1003, True, "last"),
+                  ("prefix", "pre"): B(1004, True, "last"), ("postfix", "pst"): B(1005, True, "last")},
+    )
+
+
+class OrderGen:
+    """Random trees over every node kind in which leaves/inner nodes are logging calls with unique ids;
+    the handler log then *is* the evaluation order."""
+
+    def __init__(self, rnd, fn_targets=False):
+        self.rnd = rnd
+        self.i = 0
+        self.fn_targets = fn_targets  # allow assignment targets / bare names bound to context functions
+
+    def uid(self):
+        self.i += 1
+        return ["num", str(self.i), 0]
+
+    def call(self, *args):
+        f = "gt" if self.rnd.random() < 0.15 else "t"
+        return ["fn", f, [self.uid()] + list(args)]
+
+    def leaf(self):
+        r = self.rnd
+        k = wchoice(r, [("t", 6), ("num", 1.5), ("bare", 1.2), ("var", 1)])
+        if k == "t":
+            return self.call()
+        if k == "num":
+            return num_lit(*r.choice(NUM_SMALL))
+        if k == "bare":
+            return ["ref", r.choice(["r1", "r3"])]
+        return ["ref", r.choice(["a", "b", "u"])]
+
+    def cond(self, d):
+        r = self.rnd
+        x = r.random()
+        if x < 0.5:
+            return self.call(["bool", r.random() < 0.5])
+        if x < 0.7:
+            return ["bin", r.choice(["<", "==", ">="]), self.node(d - 1), self.node(d - 1)]
+        if x < 0.8:
+            return ["ref", "r2"]
+        return ["bin", r.choice(["&&", "||"]), self.call(["bool", r.random() < 0.5]), self.call(["bool", r.random() < 0.5])]
+
+    def node(self, d):
+        r = self.rnd
+        if d <= 0 or r.random() < 0.22:
+            return self.leaf()
+        k = wchoice(r, [("arith", 5), ("lop", 2), ("rop", 1.5), ("list", 2), ("map", 1.2), ("call", 3), ("tern", 2.5), ("asg", 2.5), ("un", 1), ("pre", 0.8), ("post", 0.8), ("pst", 0.8), ("in", 1.2), ("notin", 0.5)])
+        n = lambda: self.node(d - 1)
+        if k == "arith":
+            return ["bin", r.choice(["+", "-", "*", "+"]), n(), n()]
+        if k in ("lop", "rop"):
+            return ["bin", k, n(), n()]
+        if k == "list":
+            return ["list", [n() for _ in range(r.randint(1, 3))]]
+        if k == "map":
+            return ["map", [[n(), n()] for _ in range(r.randint(1, 2))]]
+        if k == "call":
+            return self.call(*[n() for _ in range(r.randint(1, 3))])
+        if k == "tern":
+            return ["tern", self.cond(d), n(), n()]
+        if k == "asg":
+            op = r.choice(["=", "=", "+=", "-=", "sop", "*="])
+            tgt = ["ref", r.choice(["a", "b", "u"])]
+            x = r.random()
+            if x < 0.08:
+                tgt = self.call()  # not a name: error after both sides were evaluated
+            elif self.fn_targets and x < 0.2:
+                tgt = ["ref", r.choice(["r1", "r3"])]
+            return ["list", [["bin", op, tgt, n()], self.leaf()]] if r.random() < 0.6 else ["bin", op, tgt, n()]
+        if k == "un":
+            return ["un", "-", n()]
+        if k == "pre":
+            return ["un", "pre", n()]
+        if k == "post":
+            return ["post", n(), r.choice(["++", "--"])]
+        if k == "pst":
+            return ["post", n(), "pst"]
+        items = [n() for _ in range(r.randint(1, 3))]
+        needle = n()
+        if r.random() < 0.6:
+            # make the needle equal to an element that is not the last one
+            c = num_lit(*r.choice(NUM_SMALL))
+            needle = self.call(c)
+            items.insert(0, self.call(c))
+        e = ["bin", "in", needle, ["list", items]]
+        return ["un", "not", e] if k == "notin" else e
+
+    def program(self, d=3):
+        self.i = 0
+        n = wchoice(self.rnd, [(1, 5), (2, 2), (3, 1)])
+        stmts = [self.node(d) for _ in range(n)]
+        return stmts[0] if n == 1 else ["stmt", stmts]
